@@ -14,6 +14,10 @@ def rand_problem(rng):
         bins = []
         for j in range(rng.randrange(1, 5)):
             b = b"bin%d-%d" % (i, j) if rng.random() < 0.93 or not allbins else rng.choice(allbins)
+            if rng.random() < 0.18:
+                # binaries and sources share one namespace in Debian: a source usually builds a binary of its own name,
+                # and a binary may be named like ANOTHER source of the set (which does not build it)
+                b = b"src%d" % (i if rng.random() < 0.4 else rng.randrange(n))
             if b not in bins:
                 bins.append(b)
         allbins += bins
